@@ -34,3 +34,15 @@ mod c40;
 mod c21;
 #[cfg(any(not(verif_select), verif_gm))]
 mod c05;
+#[cfg(any(not(verif_select), verif_gq))]
+mod c15;
+#[cfg(any(not(verif_select), verif_gq))]
+mod c16;
+#[cfg(any(not(verif_select), verif_gq))]
+mod c22;
+#[cfg(any(not(verif_select), verif_gr))]
+mod c35_nts;
+#[cfg(any(not(verif_select), verif_gr))]
+mod c36_nts;
+#[cfg(any(not(verif_select), verif_gr))]
+mod c05_pps;
